@@ -91,9 +91,12 @@ template <class F> Input<F> randomInput(vh::Rng& r, uint64_t seed, long maxN, bo
             }
         }
         // exactness requires the Data type to hold p exactly and the arithmetic to be exact: verified, else drop the claim
+        // (the expected leaf is derived from the value actually stored: in a deep tree of a narrow coordinate type the intended lattice point may have
+        // been rounded to another lattice point when it was stored)
         for (long i = 0; i < N && !in.exactLeaf.empty(); ++i) for (int d = 0; d < D; ++d) {
             const long double back = ((long double)in.parts[i][d] - (long double)cfg.getBoxCorner()[d]) / (long double)cfg.getBoxWidths()[d] * (long double)(nl * 4);
-            if (back != std::floor(back)) { in.exactLeaf.clear(); in.dist = "lattice(not exactly representable)"; break; }
+            if (back != std::floor(back) || back < 0 || back > (long double)(nl * 4)) { in.exactLeaf.clear(); in.dist = "lattice(not exactly representable)"; break; }
+            in.exactLeaf[i][d] = std::min<long>(long(back) / 4, nl - 1);
         }
     } else {
         const int dist = int(r.below(tbx::D_NB));
